@@ -33,6 +33,7 @@ type actEnv struct {
 		V   []string `json:"v"`
 	} `json:"names"`
 	Kinds []string `json:"kinds"`
+	Addr  string   `json:"addr"`
 }
 
 // helper, stage 1: fix LISTEN_PID, re-exec (same pid, same descriptors)
@@ -91,7 +92,21 @@ func probe(addr, product string, timeout time.Duration) bool {
 var actSeq int64
 var actMu sync.Mutex
 
-func runActEnv(e *actEnv, id int) string {
+func runActEnv(e *actEnv, id int) (string, bool) {
+	ans, kept := runActEnv1(e, id)
+	return ans, kept
+}
+
+// identity of the file at path: inode and change time (a removed and re-created file may get the same inode again)
+func inodeOf(path string) uint64 {
+	var st syscall.Stat_t
+	if syscall.Lstat(path, &st) != nil {
+		return 0
+	}
+	return st.Ino ^ uint64(st.Ctim.Nano())<<20 | 1
+}
+
+func runActEnv1(e *actEnv, id int) (answer string, fileKept bool) {
 	tag := fmt.Sprintf("%d-%d", os.Getpid(), id)
 	self, _ := os.Executable()
 	var files []*os.File
@@ -104,18 +119,18 @@ func runActEnv(e *actEnv, id int) string {
 		case "socket":
 			l, err := net.Listen("unix", addrs[i])
 			if err != nil {
-				return "setup:" + err.Error()
+				return "setup:" + err.Error(), false
 			}
 			lns = append(lns, l)
 			f, err := l.(*net.UnixListener).File()
 			if err != nil {
-				return "setup:" + err.Error()
+				return "setup:" + err.Error(), false
 			}
 			files = append(files, f)
 		case "file":
 			f, err := os.CreateTemp("", "verif-act-")
 			if err != nil {
-				return "setup:" + err.Error()
+				return "setup:" + err.Error(), false
 			}
 			name := f.Name()
 			cleanup = append(cleanup, func() { os.Remove(name) })
@@ -123,7 +138,7 @@ func runActEnv(e *actEnv, id int) string {
 		case "pipe":
 			r, w, err := os.Pipe()
 			if err != nil {
-				return "setup:" + err.Error()
+				return "setup:" + err.Error(), false
 			}
 			cleanup = append(cleanup, func() { w.Close() })
 			files = append(files, r)
@@ -141,6 +156,24 @@ func runActEnv(e *actEnv, id int) string {
 		}
 	}()
 	fb := "@verif-act-" + tag + "-fallback"
+	var staleIno uint64
+	if e.Addr == "fs" {
+		// the address argument names a filesystem path that holds a stale socket file
+		dir, err := os.MkdirTemp("", "verif-act-fs-")
+		if err != nil {
+			return "setup:" + err.Error(), false
+		}
+		cleanup = append(cleanup, func() { os.RemoveAll(dir) })
+		fb = dir + "/fallback.sock"
+		l, err := net.Listen("unix", fb)
+		if err != nil {
+			return "setup:" + err.Error(), false
+		}
+		l.(*net.UnixListener).SetUnlinkOnClose(false)
+		l.Close()
+		time.Sleep(2 * time.Millisecond) // (a later re-creation gets a later change time)
+		staleIno = inodeOf(fb)
+	}
 	product := "prod-" + tag
 	cmd := exec.Command(self, "acthelper")
 	cmd.ExtraFiles = files
@@ -155,7 +188,7 @@ func runActEnv(e *actEnv, id int) string {
 	var stderr bytes.Buffer
 	cmd.Stderr = &stderr
 	if err := cmd.Start(); err != nil {
-		return "setup:" + err.Error()
+		return "setup:" + err.Error(), false
 	}
 	defer func() { cmd.Process.Kill(); cmd.Wait() }()
 	cands := map[string]string{"address": fb}
@@ -175,15 +208,18 @@ func runActEnv(e *actEnv, id int) string {
 		}
 	}
 	if answered == "" {
-		return "none"
+		return "none", false
 	}
 	// nobody else may answer
 	for name, a := range cands {
 		if name != answered && probe(a, product, 25*time.Millisecond) {
-			return "multiple"
+			return "multiple", false
 		}
 	}
-	return answered
+	if e.Addr == "fs" {
+		fileKept = staleIno != 0 && inodeOf(fb) == staleIno
+	}
+	return answered, fileKept
 }
 
 func cmdActivation(args []string) int {
@@ -220,8 +256,8 @@ func cmdActivation(args []string) int {
 		go func(i int, line []byte, e actEnv) {
 			defer wg.Done()
 			defer func() { <-sem }()
-			ans := runActEnv(&e, i)
-			log.Raw([]byte(fmt.Sprintf(`{"ev":"Case","env":%s,"answered":%q}`, line, ans)))
+			ans, kept := runActEnv(&e, i)
+			log.Raw([]byte(fmt.Sprintf(`{"ev":"Case","env":%s,"answered":%q,"file_kept":%v}`, line, ans, kept)))
 		}(i, append([]byte(nil), line...), e)
 	}
 	wg.Wait()
